@@ -1292,6 +1292,11 @@ func (ctx *RenderContext) getItem(container, index interface{}) (interface{}, er
 				// turn the number into the character with that code)
 				mapKey = reflect.ValueOf(ctx.ToString(index)).Convert(keyType)
 			} else if indexValue.Type().ConvertibleTo(keyType) {
+				// (a slice converts to an array type only when it is long enough:
+				// Convert panics otherwise, and such an index is in no map)
+				if indexValue.Kind() == reflect.Slice && !indexValue.CanConvert(keyType) {
+					return nil, nil
+				}
 				mapKey = indexValue.Convert(keyType)
 			} else {
 				// Try string conversion for the key
